@@ -855,6 +855,16 @@ def gen_loop_scenario(rng: random.Random) -> dict:
         # an observer outside the loop
         sims.append({"type": "hybrid", "group": list(depth_path[:-1]), "init_ev": None})
         connects.append({"src": 0, "seid": 0, "dst": k, "deid": 0, "sattr": 3, "dattr": 1, "ts": 0, "weak": False, "init": False, "async": False})
+    if rng.random() < 0.25:
+        # an all-hybrid cycle whose weak back edge ends in a NON-trigger input (it only samples): not a same-time loop at all - unless
+        # the attribute is mistaken for a trigger; the members' connected entities are children of a parent model in which it is one
+        for s_ in sims:
+            s_["type"] = "hybrid"
+            s_["init_ev"] = None
+            s_["via_parent"] = True
+        connects[-1]["dattr"] = 0
+        connects[-1]["init"] = True
+        connects[-1]["sattr"] = 2
     if rng.random() < 0.3:
         # a second loop in a SIBLING group (same depth), fed by the first one: its sub-step counter starts from 0 -
         # the connection between the siblings adds only to the tiers the two groups share
